@@ -126,6 +126,11 @@ func main() {
 		if err := f(c); err != nil {
 			c.res.SelfTest = append(c.res.SelfTest, "harness error: "+err.Error())
 		}
+		for _, u := range unstableEvals {
+			c.res.S3Checked++
+			c.res.violate(J{"src": u[0], "note": "the same parsed tree evaluated three times on the same scope"}, "the same result every time", u[1],
+				"evaluating one parsed expression again gives a different result (evaluation is not a function of tree and scope)")
+		}
 		if err := c.res.write(*out); err != nil {
 			fmt.Println("cannot write result:", err)
 			os.Exit(3)
